@@ -33,13 +33,16 @@ def cases(draw, tier):
         return {"fn": draw(st.sampled_from(["svd", "pinv"])), "kind": "large", "m": 1001, "n": 1001, "cplx": False, "seed": draw(st.integers(0, 10**5)),
                 "k": draw(st.integers(1, 3)), "alg": draw(st.sampled_from(["Auto(kw)", "Auto(kw)", "omitted"])), "ncol": 0, "tol_exp": -8, "bdt": "same"}
     fn = draw(st.sampled_from(["svd", "svd", "pinv"]))
-    kind = draw(st.sampled_from(["dense", "dense", "dense", "eye", "diag", "smul", "perm", "herm", "psd_ann", "prod", "prod", "sum"]))
+    kind = draw(st.sampled_from(["dense", "dense", "dense", "eye", "diag", "smul", "perm", "herm", "psd_ann", "prod", "prod", "sum",
+                                 "dense_spread", "scaled_stiefel", "scaled_stiefel"]))
     lim = 8 if tier == "quick" else 12
     m, n = draw(st.integers(1, lim)), draw(st.integers(1, lim))
-    if kind not in ("dense", "prod", "sum"):
+    if kind == "scaled_stiefel":
+        m, n = max(m, n), min(m, n)  # tall (or square): orthonormal columns times a scalar
+    elif kind not in ("dense", "prod", "sum", "dense_spread"):
         n = m
-    if kind in ("smul", "perm") and fn == "svd":
-        kind = "diag"
+    if kind in ("smul", "perm", "scaled_stiefel") and fn == "svd":
+        kind = "diag"  # (all singular values equal: outside the well-separated domain of the svd half)
     case = {"fn": fn, "kind": kind, "m": m, "n": n, "cplx": draw(st.booleans()), "seed": draw(st.integers(0, 10**6)),
             "k": draw(st.integers(1, min(m, n))), "alg": draw(st.sampled_from(SVD_ALGS if fn == "svd" else PINV_ALGS)),
             "ncol": draw(st.sampled_from([0, 0, 2])), "tol_exp": draw(st.sampled_from([-10, -8, -6])),
@@ -96,6 +99,18 @@ def build(case):
         if np.linalg.matrix_rank(M) == min(m, n) and np.linalg.cond(M) < 1e3:
             return ops.Product(*[ops.Dense(F) for F in Fs]), M
         kind = "dense"
+    if kind == "scaled_stiefel":
+        # c Q with Q^H Q = I declared Stiefel (Unitary when square) and |c| != 1: pinv(c Q) = Q^H / c
+        Q = KR.rand_unitary(m, seed, cplx)[:, :n]
+        c = [3.0, 0.25, -2.0, 0.5][seed % 4] * (np.exp(0.7j) if cplx and seed % 3 == 0 else 1.0)
+        Qop = (cola.Unitary if m == n and seed % 2 else cola.Stiefel)(ops.Dense(Q))
+        return (c * Qop if seed % 5 else Qop / (1.0 / c)), c * Q
+    if kind == "dense_spread":
+        # singular values spread geometrically over 1e3 / 5e3 (squared by the Gram matrices of the Krylov algorithm)
+        sp = [1e3, 5e3][seed % 2]
+        s = sp ** (np.arange(r) / max(r - 1, 1))
+        M = (KR.rand_unitary(m, seed, cplx)[:, :r] * s) @ KR.rand_unitary(n, seed + 1, cplx)[:, :r].conj().T
+        return ops.Dense(M), M
     if kind == "sum":
         s = 1.0 * 1.2 ** (np.arange(r) + 0.3 * rng.random(r))
         rng.shuffle(s)
@@ -187,7 +202,8 @@ def check(case, out):
     out.nontrivial = m != n or (fn == "svd" and k < r) or np.iscomplexobj(M) or case["alg"] == "CG"
 
     if fn == "svd":
-        alg = {"omitted": None, "Auto": L.Auto(), "DenseSVD": DenseSVD(), "Lanczos": L.Lanczos(max_iters=r + 2, tol=1e-12)}[case["alg"]]
+        lt = 1e-6 if case["kind"] == "dense_spread" else 1e-12  # (1e-6 is the default tolerance of Lanczos)
+        alg = {"omitted": None, "Auto": L.Auto(), "DenseSVD": DenseSVD(), "Lanczos": L.Lanczos(max_iters=r + 2, tol=lt)}[case["alg"]]
         try:
             U, S, V = svd(A, k, "LM", *([alg] if alg is not None else []))
             Ud, Sd, Vd = np.asarray(U.to_dense()), np.asarray(S.to_dense()), np.asarray(V.to_dense())
@@ -227,7 +243,7 @@ def check(case, out):
         else:
             out.fail("factors", site, "count", f"{kk} triplets returned for k={k}, min(m,n)={r}")
             return
-        if krylov and kk != k and case["kind"] in ("dense", "herm", "psd_ann", "prod", "sum"):  # structural rules may return their full exact decomposition
+        if krylov and kk != k and case["kind"] in ("dense", "herm", "psd_ann", "prod", "sum", "dense_spread"):  # structural rules may return their full exact decomposition
             out.fail("factors", site, "count", f"Krylov algorithm returned {kk} triplets for k={k}")
             return
         err = np.abs(rec - target).max()
